@@ -552,6 +552,8 @@ func TestVerifC26Syntax(t *testing.T) {
 	comments := concs[len(concs)-1]
 	widths := []int{100, 30, 8, 1}
 	var parsed, rejected, mutTotal, mutParsed, mutRejected, seqs, kfSeen int
+	kfBy := map[string]int{}
+	kfMore := func(label string) bool { kfSeen++; kfBy[label]++; return kfBy[label] <= 4 }
 	viol := func(sig, msg string, cs *c26Case, text string) {
 		verifh.Violation(sig, msg, map[string]any{"toks": cs.Toks, "text": text, "predicted_ok": cs.Ok, "predicted_ast": cs.Ast})
 	}
@@ -590,14 +592,12 @@ func TestVerifC26Syntax(t *testing.T) {
 					if kind, msg := c26RoundTrip(e, widths); kind != "" {
 						sig := "sequence|" + kind
 						if c26InfPow(c26Norm(e)) && (kind == "print-ast" || kind == "print-unstable") {
-							kfSeen++
-							if kfSeen > 3 {
+							if !kfMore("infpow") {
 								continue
 							}
 							sig = "known-infpow|" + kind
 						} else if c26OffNaN(c26Norm(e)) && strings.HasPrefix(kind, "print-") {
-							kfSeen++
-							if kfSeen > 6 {
+							if !kfMore("offnan") {
 								continue
 							}
 							sig = "known-offnan|" + kind
@@ -619,8 +619,7 @@ func TestVerifC26Syntax(t *testing.T) {
 			shape := c26Shape(want)
 			switch {
 			case ok && !cs.Ok && cs.Kf == "offnan" && c26OffNaN(c26Norm(e)):
-				kfSeen++
-				if kfSeen <= 6 {
+				if kfMore("offnan") {
 					viol("known-offnan|accepted", fmt.Sprintf("%q is accepted (offset NaN becomes %s)", text, e.String()), cs, text)
 				}
 			case ok && !cs.Ok:
@@ -641,8 +640,7 @@ func TestVerifC26Syntax(t *testing.T) {
 				if kind, msg := c26RoundTrip(e, widths); kind != "" {
 					sig := shape + "|" + kind
 					if cs.Kf != "" && c26InfPow(got) && (kind == "print-ast" || kind == "print-unstable") {
-						kfSeen++
-						if kfSeen > 3 {
+						if !kfMore(cs.Kf) {
 							break
 						}
 						sig = "known-" + cs.Kf + "|" + kind
@@ -664,14 +662,12 @@ func TestVerifC26Syntax(t *testing.T) {
 					if kind, msg := c26RoundTrip(me, widths[:2]); kind != "" {
 						sig := "mutation|" + kind
 						if c26InfPow(c26Norm(me)) && (kind == "print-ast" || kind == "print-unstable") {
-							kfSeen++
-							if kfSeen > 3 {
+							if !kfMore("infpow") {
 								continue
 							}
 							sig = "known-infpow|" + kind
 						} else if c26OffNaN(c26Norm(me)) && strings.HasPrefix(kind, "print-") {
-							kfSeen++
-							if kfSeen > 6 {
+							if !kfMore("offnan") {
 								continue
 							}
 							sig = "known-offnan|" + kind
